@@ -381,11 +381,43 @@ func judgeBind(r *rep.Report, p interface{}, bs ref.B) {
 	}
 }
 
+// judgeReuse: callers may keep one pattern map and change it between calls (a search that is
+// narrowed step by step).  The same map OBJECT is refilled with the next case's pattern and
+// matched again; the answer must be the one for its present contents.
+func judgeReuse(r *rep.Report, g *gen.Gen, n int) {
+	pm := map[string]interface{}{}
+	for i := 0; i < n; i++ {
+		d := ref.Norm(g.Map(2))
+		pn := ref.Norm(g.PatternFrom(d, true))
+		pnew, ok := pn.(map[string]interface{})
+		if !ok || !gen.InFragment(pn) || !gen.InFragment(d) || gen.HasVarString(d) {
+			continue
+		}
+		for k := range pm {
+			delete(pm, k)
+		}
+		for k, v := range pnew {
+			pm[k] = v
+		}
+		want := ref.CanonSet(ref.Match(pn, d, ref.B{}))
+		bss, err := core.Matches(nil, pm, d)
+		r.Case(len(want) > 0, "reuse"+ref.Canon([]interface{}{pn, d}))
+		r.Count("reused_pattern_map_cases", 1)
+		c := tcase{P: pn, D: d}
+		if err != nil {
+			r.Violate("", "core.Match returned an error for an in-fragment input: "+err.Error(), rep.J{"case": c, "pattern_map_reused": true})
+			continue
+		}
+		verdict(r, c, ref.CanonSet(toB(bss)), want, "core.Matches (pattern map object reused and refilled)")
+	}
+}
+
 func main() {
 	e := rep.GetEnv()
 	r := rep.New(e)
 	g := gen.New(e.BatchSeed())
 	g.Lookalikes = true
+	judgeReuse(r, gen.New(e.BatchSeed()+77), e.Pick(1500, 15000))
 	n := e.Pick(12000, 150000)
 	for i := 0; i < n/10; i++ {
 		p := ref.Norm(g.PatternFrom(g.Map(2), true))
